@@ -111,6 +111,20 @@ func (l Layout) IsContig() bool {
 }
 func (l Layout) IsCM() bool     { return l.Root != "rm" }
 
+// onlyTransposed: a whole tensor with nothing but lazy transpositions pending (its offsets are a
+// permutation of 0..n-1).
+func (l Layout) onlyTransposed() bool {
+	if l.Final != "" || len(l.Steps) == 0 {
+		return false
+	}
+	for _, st := range l.Steps {
+		if st.Op != "T" {
+			return false
+		}
+	}
+	return true
+}
+
 // Built is a realised layout.
 type Built struct {
 	T        *tensor.Dense
